@@ -10,6 +10,10 @@
 // Oracle: the body ran exactly once per task, its stores are visible after join(), finished() is true after join()
 // and stays true, parallel_for's index counters are exact immediately after it returns, every waiter completes.
 #include "common/vfrc.h"
+#include <memory>
+#include <pthread.h>
+#include <thread>
+#include <signal.h>
 #include "common/ref_codec.h"
 #define VSCHED_NO_OBSERVER
 #include "../sched/vsched.h"
@@ -434,6 +438,149 @@ static void scenario_semt(int tsel, int nwaits, int phase, int delay)
 	}
 }
 
+
+// Semaphore under signals: a handler installed WITHOUT SA_RESTART interrupts the consumer's earlier blocking call (errno is left
+// at EINTR) or the wait itself; every wait() must still take exactly one token: n posts are matched by exactly n returned waits.
+static void semsig_handler(int) {}
+struct SemSigState {
+	Semaphore sem;
+	std::atomic<int> taken{0}, phase{0};
+	std::atomic<bool> done{false};
+	SemSigState() : sem(0) {}
+};
+static void scenario_semsig(int rounds, int delay)
+{
+	rounds = 1 + (rounds % 5 + 5) % 5;
+	struct sigaction sa, old;
+	memset(&sa, 0, sizeof sa);
+	sa.sa_handler = semsig_handler; // no SA_RESTART
+	sigemptyset(&sa.sa_mask);
+	sigaction(SIGUSR1, &sa, &old);
+	auto st = std::make_shared<SemSigState>(); // (shared: the consumer is abandoned if it can never be released)
+	std::thread consumer([st, rounds]() {
+		for (int r = 0; r < rounds; r++) {
+			st->phase = 2 * r + 1;
+			usleep(300000); // interrupted by SIGUSR1 (EINTR), or runs out
+			st->phase = 2 * r + 2;
+			st->sem.wait();
+			st->taken++;
+			st->sem.wait();
+			st->taken++;
+		}
+		st->done = true;
+	});
+	pthread_t ct = consumer.native_handle();
+	bool hung = false;
+	int posted = 0;
+	for (int r = 0; r < rounds && !hung; r++) {
+		double t0 = vf::now();
+		while (st->phase < 2 * r + 1 && vf::now() - t0 < 20)
+			usleep(100);
+		usleep(1000 + (delay * 131 + r * 977) % 4000);
+		st->sem.post(); // two tokens are there before the consumer starts waiting ...
+		st->sem.post();
+		posted += 2;
+		pthread_kill(ct, SIGUSR1); // ... and its sleep is cut short by the signal
+		if ((delay + r) % 2) {
+			usleep(200 + delay % 700);
+			pthread_kill(ct, SIGUSR1); // sometimes a second signal lands around / inside the waits
+		}
+		t0 = vf::now();
+		while (st->taken < 2 * (r + 1) && vf::now() - t0 < 20)
+			usleep(200);
+		hung = st->taken < 2 * (r + 1);
+	}
+	// Judged: a wait() never takes more than one token, and never blocks while a token is there. (POSIX lets sem_wait return
+	// early with EINTR when a signal lands INSIDE it; the wrapper then returns without a token. That is a spurious return, not a
+	// lost post, and is not judged: tokens taken = posts - value() must only never EXCEED the number of returned waits.)
+	int got = st->taken, left = st->sem.value();
+	int consumed = posted - left;
+	bool swallowed = consumed > got;
+	bool blocked_with_token = hung && left > 0;
+	if (hung) {
+		printf("HANG-DIAG: Semaphore under signals: the consumer's wait() calls returned %d times, %d tokens were taken, %d are left: %s\n", got, consumed, left,
+		       swallowed ? "one wait() took more than one token" : "wait() blocks although a token is there");
+		fflush(stdout);
+		for (int k = 0; k < 40 && !st->done; k++) { // release it if that is possible at all
+			st->sem.post(2);
+			usleep(50000);
+		}
+	}
+	if (st->done)
+		consumer.join();
+	else
+		consumer.detach(); // a wait() that swallows every token can never be released; the shared state keeps it harmless
+	sigaction(SIGUSR1, &old, 0);
+	VF_CHECK(!swallowed, "Semaphore under signals (handler without SA_RESTART, errno left at EINTR by an interrupted sleep): ", consumed, " tokens were taken by ", got, " returned wait() calls (a wait() took more than one token)");
+	VF_CHECK(!blocked_with_token, "Semaphore under signals: wait() did not return within 20 s although ", left, " token(s) were there (lost post)");
+}
+
+// Condition with a timed wait whose deadline passes while the signaller HOLDS the mutex (the waiter can only return once the
+// signaller unlocks), followed by an ordinary single waiter on the same Condition: its signal must not be lost
+static void scenario_condlate(int rounds, int delay)
+{
+	rounds = 1 + (rounds % 3 + 3) % 3;
+	Mutex mutex;
+	Condition cond(mutex);
+	for (int r = 0; r < rounds; r++) {
+		// step 1: timed wait that expires behind the signaller's back
+		bool flag1 = false;
+		std::atomic<int> inwait{0};
+		std::thread w1([&]() {
+			mutex.lock();
+			inwait = 1;
+			while (!flag1)
+				cond.wait(0.05 + (delay % 5) * 0.01);
+			mutex.unlock();
+		});
+		double t0 = vf::now();
+		while (!inwait && vf::now() - t0 < 10)
+			usleep(100);
+		usleep(2000);
+		mutex.lock();
+		usleep(150000 + (delay % 7) * 10000); // the waiter's deadline passes while we hold the mutex
+		flag1 = true;
+		cond.signal();
+		mutex.unlock();
+		w1.join();
+		// step 2: one ordinary waiter, signalled once under the lock after it blocked
+		bool flag2 = false;
+		std::atomic<int> st{0};
+		std::thread w2([&]() {
+			mutex.lock();
+			st = 1;
+			while (!flag2)
+				cond.wait();
+			mutex.unlock();
+			st = 2;
+		});
+		t0 = vf::now();
+		while (st < 1 && vf::now() - t0 < 10)
+			usleep(100);
+		usleep(20000 + (delay % 11) * 3000);
+		mutex.lock();
+		flag2 = true;
+		cond.signal();
+		mutex.unlock();
+		t0 = vf::now();
+		while (st < 2 && vf::now() - t0 < 20)
+			usleep(200);
+		bool hung = st < 2;
+		if (hung) {
+			printf("HANG-DIAG: Condition: after a timed wait had expired while the signaller held the mutex, the next lone waiter was signalled under the lock but did not wake within 20 s (lost signal)\n");
+			fflush(stdout);
+			for (int k = 0; k < 2000 && st < 2; k++) {
+				mutex.lock();
+				cond.signal();
+				mutex.unlock();
+				usleep(1000);
+			}
+		}
+		w2.join();
+		VF_CHECK(!hung, "Condition: round ", r, ": after a timed wait had expired while the signaller held the mutex, the next lone waiter was signalled under the lock but did not wake within 20 s (lost signal)");
+	}
+}
+
 // Condition under the documented protocol: lock; while(!pred) wait(); unlock -- signal under the lock
 static void scenario_cond(int nprod, int ncons, int per, int delay)
 {
@@ -676,6 +823,10 @@ void vf_run_case(const std::string& part, const vf::Case& c)
 			scenario_sem((int)o.i(0), (int)o.i(1), (int)o.i(2), (int)o.i(3));
 		else if (o.name == "many")
 			scenario_many((int)o.i(0));
+		else if (o.name == "semsig")
+			scenario_semsig((int)o.i(0), (int)o.i(3));
+		else if (o.name == "condlate")
+			scenario_condlate((int)o.i(0), (int)o.i(3));
 		else if (o.name == "semt")
 			scenario_semt((int)o.i(0), (int)o.i(1), (int)o.i(2), (int)o.i(3));
 		else if (o.name == "cond")
@@ -791,7 +942,7 @@ void vf_search(const vf::Args& a)
 	}();
 	// (5) Semaphore / Condition scripts
 	[&]() {
-		auto g = gen::map(gen::tuple(gen::element(std::string("sem"), std::string("cond"), std::string("condflag"), std::string("semt")), vf::irange<int>(0, 7), vf::irange<int>(0, 3), vf::irange<int>(0, 49), vf::irange<int>(0, 1000)),
+		auto g = gen::map(gen::tuple(gen::element(std::string("sem"), std::string("cond"), std::string("condflag"), std::string("semt"), std::string("semsig"), std::string("condlate")), vf::irange<int>(0, 7), vf::irange<int>(0, 3), vf::irange<int>(0, 49), vf::irange<int>(0, 1000)),
 		                  [](const std::tuple<std::string, int, int, int, int>& t) {
 			                  vf::Case c;
 			                  c.add(vf::Op(std::get<0>(t), {std::get<1>(t), std::get<2>(t), std::get<3>(t), std::get<4>(t)}));
